@@ -538,7 +538,7 @@ def config_text(case, sections, extra=None):
     if 'na' in c:
         lines.append('na_values=%s' % ','.join(c['na']))
     if c.get('safe'):
-        lines.append('safe_percent_encoding=%s' % c['safe'].replace('%', '%%'))
+        lines.append('safe_percent_encoding=%s' % c['safe'].replace('%', '%%').replace('$', '$$'))   # ExtendedInterpolation: a literal $ is written $$
     if c.get('printable'):
         lines.append('only_printable_chars=yes')
     if c.get('udfs'):
